@@ -180,7 +180,7 @@ def run(ctx):
             chunk = 12 if n < 4 else 20
             for i in range(0, len(fs), chunk):
                 cases.append({"id": cid, "n": n, "D": 1 + cid % 2, "G": [5, 7][cid % 2], "outlier_prior": op,
-                              "kind": ["moderate", "smooth"][cid % 2], "alphas": alphas if n < 4 else alphas[1::2],
+                              "kind": ["moderate", "smooth", "twins", "flat"][cid % 4], "alphas": alphas if n < 4 else alphas[1::2],
                               "forests": [f.describe() for f in fs[i:i + chunk]], "cluster_sizes": bool(cid % 3 == 0)})
                 cid += 1
     nrand = 60 if quick else 1500
@@ -190,7 +190,7 @@ def run(ctx):
         f = gen.random_forest(rng, n, max_children=6, p_outlier=0.2 if op > 0 else 0.0,
                               shape=[None, "star", "bushy", "chain"][i % 4], n_tops=[None, 1, 4][i % 3])
         cases.append({"id": cid, "n": n, "D": 1 + i % 3, "G": [5, 11, 21][i % 3], "outlier_prior": op,
-                      "kind": ["moderate", "smooth"][i % 2], "alphas": [alphas[i % 5], alphas[(i + 2) % 5]],
+                      "kind": ["moderate", "smooth", "twins", "flat"][i % 4], "alphas": [alphas[i % 5], alphas[(i + 2) % 5]],
                       "forests": [f.describe()], "cluster_sizes": bool(i % 4 == 0)})
         cid += 1
     tasks = [{"seed": ctx.seed, "cases": cases[i::32]} for i in range(32)]
